@@ -355,7 +355,5 @@ def c12_replay(rec):
 
 def _load_more():
     from . import props3  # noqa: F401  (registers more parts)
-    try:
-        from . import props4  # noqa: F401
-    except ImportError:
-        pass
+    from . import props4  # noqa: F401
+    from . import props5  # noqa: F401
